@@ -184,4 +184,129 @@ theorem slicedAggsDown_delivered (E : List Batch) : ∀ (Ds : List (SlicedDef Ba
 
 end chain
 
+/-! ### exhaustion: a `done` runner sits on a source that REPORTED exhaustion (as `Lemmas/ResumeChain.lean` does for
+abstract aggregates), which makes the state maps of the stages far upstream final once the last stage is exhausted -/
+
+section exh
+variable {α X S Rv : Type} {R : Recoverable α} {Inv : R.It → Prop} {rem : R.It → List α}
+
+/-- `SInv` + "done only on a source that reported exhaustion" -/
+def SlicedIt.SInvX (Inv : R.It → Prop) (rem : R.It → List α) (Exh : R.It → Prop) (D : SlicedDef α X S Rv)
+    (all : List Batch) (it : SlicedIt R S) : Prop :=
+  SlicedIt.SInv Inv rem D all it ∧ (it.base.done = true → Exh it.base.src)
+
+theorem slicedRec_refines_exh (h : Refines R Inv rem) (Exh : R.It → Prop)
+    (hx : ∀ it, Inv it → (R.next it).1 = none → Exh (R.next it).2)
+    (D : SlicedDef α X S Rv) (hf : ∀ a, (D.f a).length ≤ 1) (all : List Batch) :
+    Refines (slicedRec R D) (SlicedIt.SInvX Inv rem Exh D all) (fun it => (rem it.base.src).flatMap D.f) where
+  next_nil := by
+    intro it hi hr
+    obtain ⟨a, b, c⟩ := (slicedRec_refines h D hf all).next_nil it hi.1 hr
+    exact ⟨a, ⟨b, PipeIt.nextAux_exh h D.elems Exh hx _ it.base hi.1.1.1.1 hi.2⟩, c⟩
+  next_cons := by
+    intro it x xs hi hr
+    obtain ⟨a, b, c⟩ := (slicedRec_refines h D hf all).next_cons it x xs hi.1 hr
+    exact ⟨a, ⟨b, PipeIt.nextAux_exh h D.elems Exh hx _ it.base hi.1.1.1.1 hi.2⟩, c⟩
+  restore_state := by
+    intro it hi
+    obtain ⟨it', e, b, c⟩ := (slicedRec_refines h D hf all).restore_state it hi.1
+    refine ⟨it', e, ⟨b, fun hd => ?_⟩, c⟩
+    have e' : SlicedIt.restoreWith R D (PipeAgg.initFilter D.P) (SlicedIt.state R it) = .ok it' := e
+    unfold SlicedIt.restoreWith at e'
+    cases hq : R.restore (SlicedIt.state R it).1 with
+    | error err => simp [hq, bind, Except.bind] at e'
+    | ok src =>
+      simp only [hq, bind, Except.bind, pure, Except.pure] at e'
+      injection e' with e'
+      subst e'
+      simp [PipeIt.fresh] at hd
+  size_ok := fun it hi => (slicedRec_refines h D hf all).size_ok it hi.1
+
+/-- a sliced runner iterator that answers `none` is `done`, on a source that reported exhaustion -/
+theorem slicedRec_none_exh (h : Refines R Inv rem) (Exh : R.It → Prop)
+    (hx : ∀ it, Inv it → (R.next it).1 = none → Exh (R.next it).2)
+    (D : SlicedDef α X S Rv) (all : List Batch) (it : SlicedIt R S)
+    (hi : SlicedIt.SInvX Inv rem Exh D all it) (hn : ((slicedRec R D).next it).1 = none) :
+    (SlicedIt.base (R := R) ((slicedRec R D).next it).2).done = true ∧
+      Exh (SlicedIt.base (R := R) ((slicedRec R D).next it).2).src := by
+  have hs := PipeIt.next_spec h (rowPipe D.f noAgg (fun _ => [])) (rowViewOf D.f)
+    (rowPipe_conserves D.f noAgg (fun _ => [])) it.base hi.1.1.1
+  have hn' : (PipeIt.next R (rowPipe D.f noAgg (fun _ => [])) it.base).1 = none := hn
+  rw [hn'] at hs
+  have hd : (PipeIt.next R (rowPipe D.f noAgg (fun _ => [])) it.base).2.done = true := hs.2.2.2.2
+  exact ⟨hd, PipeIt.nextAux_exh h _ Exh hx _ it.base hi.1.1.1.1 hi.2 hd⟩
+
+end exh
+
+section chainx
+variable {X S Rv : Type} {R : Recoverable Batch} {Inv : R.It → Prop} {rem : R.It → List Batch}
+
+/-- every runner of the chain has seen its source's `StopIteration` -/
+def slicedChainExh : (Ds : List (SlicedDef Batch X S Rv)) → (slicedChainRec R Ds).It → Prop
+  | [], _ => True
+  | _ :: Ds, p => (show SlicedIt (slicedChainRec R Ds) S from p).base.done = true ∧
+      slicedChainExh Ds (show SlicedIt (slicedChainRec R Ds) S from p).base.src
+
+def slicedChainInvX (Inv : R.It → Prop) (rem : R.It → List Batch) (E : List Batch) :
+    (Ds : List (SlicedDef Batch X S Rv)) → (slicedChainRec R Ds).It → Prop
+  | [], it => Inv it
+  | D :: Ds, p =>
+    SlicedIt.SInvX (R := slicedChainRec R Ds) (slicedChainInvX Inv rem E Ds) (slicedChainRem rem Ds)
+      (slicedChainExh Ds) D (slicedChainOut (D :: Ds) E) p
+
+theorem sliced_chain_refines_exh (h : Refines R Inv rem) (E : List Batch) :
+    ∀ Ds : List (SlicedDef Batch X S Rv), (∀ D ∈ Ds, ∀ a, (D.f a).length ≤ 1) →
+      Refines (slicedChainRec R Ds) (slicedChainInvX Inv rem E Ds) (slicedChainRem rem Ds) ∧
+      (∀ it, slicedChainInvX Inv rem E Ds it → ((slicedChainRec R Ds).next it).1 = none →
+        slicedChainExh Ds ((slicedChainRec R Ds).next it).2) := by
+  intro Ds
+  induction Ds with
+  | nil => intro _; exact ⟨h, fun _ _ _ => trivial⟩
+  | cons D Ds ih =>
+    intro hf
+    obtain ⟨h', hx'⟩ := ih (fun t ht => hf t (List.mem_cons_of_mem _ ht))
+    have hfs := hf D List.mem_cons_self
+    exact ⟨slicedRec_refines_exh h' (slicedChainExh Ds) hx' D hfs _,
+      fun p hp hn => slicedRec_none_exh h' (slicedChainExh Ds) hx' D _ p hp hn⟩
+
+theorem sliced_chain_fresh_exh (it : R.It) (hi : Inv it) : ∀ Ds : List (SlicedDef Batch X S Rv),
+    slicedChainInvX Inv rem (rem it) Ds (slicedChainFresh R Ds it) ∧
+      slicedChainRem rem Ds (slicedChainFresh R Ds it) = slicedChainOut Ds (rem it) := by
+  intro Ds
+  induction Ds with
+  | nil => exact ⟨hi, rfl⟩
+  | cons D Ds ih =>
+    obtain ⟨i1, i2⟩ := ih
+    have hfresh := SlicedIt.SInv.fresh (R := slicedChainRec R Ds) (Inv := slicedChainInvX Inv rem (rem it) Ds)
+      (rem := slicedChainRem rem Ds) D (slicedChainFresh R Ds it) i1
+    rw [i2] at hfresh
+    refine ⟨⟨hfresh, fun hd => ?_⟩, ?_⟩
+    · simp [slicedChainFresh, SlicedIt.fresh, PipeIt.fresh] at hd
+    · show (slicedChainRem rem Ds (slicedChainFresh R Ds it)).flatMap D.f = _
+      rw [i2]; rfl
+
+/-- the state map of every stage (downstream first) after ONE PASS over the whole stream -/
+def slicedFinalAggs : List (SlicedDef Batch X S Rv) → List Batch → List (Except ErrKind (State S))
+  | [], _ => []
+  | D :: Ds, E => PipeAgg.run D.P (slicedChainOut (D :: Ds) E) :: slicedFinalAggs Ds E
+
+/-- once every runner is exhausted, every stage's state map is that of one pass over ALL its outputs -/
+theorem slicedAggsDown_final (E : List Batch) : ∀ (Ds : List (SlicedDef Batch X S Rv))
+    (it : (slicedChainRec R Ds).It), slicedChainInvX Inv rem E Ds it → slicedChainExh Ds it →
+      slicedAggsDown R Ds it = slicedFinalAggs Ds E := by
+  intro Ds
+  induction Ds with
+  | nil => intro _ _ _; rfl
+  | cons D Ds ih =>
+    intro p hp hx
+    obtain ⟨⟨⟨⟨hsrc, hrem⟩, _, _, _, _⟩, Dl, hD, hagg⟩, _⟩ := hp
+    obtain ⟨hd, hxs⟩ := hx
+    have hnil := hrem hd
+    rw [hnil, List.flatMap_nil, List.append_nil] at hD
+    show (show SlicedIt (slicedChainRec R Ds) S from p).agg ::
+      slicedAggsDown R Ds (show SlicedIt (slicedChainRec R Ds) S from p).base.src = _
+    rw [ih _ hsrc hxs, hagg, hD]
+    rfl
+
+end chainx
 end MlModel.Resume
